@@ -2,6 +2,8 @@ import AvroModel.Props.C13
 import AvroModel.Props.C09
 import AvroModel.Props.C07
 import AvroModel.Lemmas.EndToEnd
+import AvroModel.Lemmas.RoundTrip
+import AvroModel.Lemmas.NormSpec
 /-!
 # C01 — Encode-then-read round trip preserves every record
 
@@ -111,5 +113,120 @@ example : ∃ s' w', encRun exCfg {} (exOps ++ [.flush]) = (s', w', none) ∧ s'
     (by intro r hr rest; simp [exOps, encodings] at hr; rcases hr with rfl | rfl | rfl | rfl <;> rfl)
     (by decide) (by decide) (fun _ => none) (fun _ => rfl)
   simpa [exOps, encodings] using this
+
+/-! ### Values: what is read back is the normal form of what was written -/
+
+/-- **C01, values**: a value `g` written with `Codec.Write` and read back with `Codec.Read` into the
+zeroed destination (the container reader zeroes it before every record) comes back as
+`normCodec … g` — the codec-directed normal form of `Lemmas/RoundTrip.lean`, which identifies nil and
+empty maps, replaces an omitted (omitempty-zero, nil, invalid-wrapper) union member by the zero
+value, truncates times exactly as the logical type does, and is otherwise the identity
+(`normCodec_idem`, `normCodec_plain`) — followed by exactly the rest of the block.
+Hypotheses: the codec is one the library builds for schema `s`; the write succeeded; the
+specification defines the encoding of the written datum (the value is within the schema type's
+range); the side conditions `RTOk` (integers within their Go width, Go maps have distinct keys,
+well-formed record targets, representable times — none of them about nil/empty, omitempty or
+wrapper validity); and the read budget `n'` is not exhausted. -/
+theorem value_roundtrip (c : Codec) (s : ASchema) (hcf : CodecFor c s) (n n' m m' : Nat) (g : GoVal)
+    (bs bs' rest : Bytes) (v : Value)
+    (hw : write env n c g = some bs) (ht : toAvro env (omits env) m c g = some v)
+    (he : encode (canonPlan v) s v = some bs') (hok : RTOk env m' c g)
+    (hnf : read env n' c (bs ++ rest) (Codec.zero env c) ≠ .fuel) :
+    read env n' c (bs ++ rest) (Codec.zero env c) = .ok (normCodec env m' c g, rest) :=
+  record_exact env c s hcf n n' m m' g _ _ bs bs' rest v hw ht he (roundTrip env m' m c g v ht hok) hnf
+
+/-! non-vacuity: the codec the library builds for `struct { M map[string]int64; P *string; Q *[]int32 }` with a one-entry map, a
+non-nil string pointer and a nil slice pointer (which reads back as a pointer to the empty slice) -/
+
+def exCodec : Codec :=
+  .record [.map true [] [], .ptr none, .ptr none]
+    [.map (.int 64 false) false, .unionOne (.pointer (.string false)) 1, .pointer (.array (.int 32 false) false)]
+    [some 0, some 1, some 2]
+def exSchema : ASchema := .record ["M", "P", "Q"] [.map .long, .union [.null, .string], .array .int]
+def exVal : GoVal := .struct [.map false [[97]] [.int 7], .ptr (some (.str [104, 105])), .ptr none]
+def exDatum : Value := .record [.map [[97]] [.int 7], .union 1 (.bytes [104, 105]), .array []]
+def exBytes : Bytes := [2, 2, 97, 14, 0, 2, 4, 104, 105, 0]
+
+private def isFuel {α : Type} : Outcome α → Bool | .fuel => true | _ => false
+private theorem ne_fuel_of {α : Type} {o : Outcome α} (h : isFuel o = false) : o ≠ .fuel := by
+  intro e; subst e; simp [isFuel] at h
+
+example : read toyEnv 10 exCodec (exBytes ++ [255]) (Codec.zero toyEnv exCodec)
+    = .ok (.struct [.map false [[97]] [.int 7], .ptr (some (.str [104, 105])), .ptr (some (.slice []))], [255]) := by
+  have hcf : CodecFor exCodec exSchema :=
+    .record (.cons (.map .intL) (.cons (.unionOne1 (.pointer .string)) (.cons (.pointer (.array .intI)) .nil))) rfl
+  have := value_roundtrip toyEnv exCodec exSchema hcf 10 10 10 5 exVal exBytes exBytes [255] exDatum
+    (by decide +kernel) (by rfl) (by decide +kernel)
+    (by simp [RTOk, exCodec, exVal, FieldsOk, Codec.zero, inRange, Codec.ptrDepth])
+    (ne_fuel_of (by decide +kernel))
+  simpa [normCodec, exCodec, exVal, normFieldsWith, listSet, Codec.stripPtr, nilForm, omits] using this
+
+/-- `normCodec` is a normal form (1): normalising twice is normalising once -/
+theorem norm_idempotent (h : EnvLaws env) (n : Nat) (c : Codec) (g : GoVal) (hok : RTOk env n c g) :
+    normCodec env n c (normCodec env n c g) = normCodec env n c g :=
+  normCodec_idem env h n c g hok
+
+/-- `normCodec` is a normal form (2): it is the identity on plain values (see `Plain`), so a plain
+value is read back exactly as it was written -/
+theorem value_roundtrip_exact (h : EnvLaws env) (c : Codec) (s : ASchema) (hcf : CodecFor c s) (n n' m m' : Nat)
+    (g : GoVal) (bs bs' rest : Bytes) (v : Value)
+    (hw : write env n c g = some bs) (ht : toAvro env (omits env) m c g = some v)
+    (he : encode (canonPlan v) s v = some bs') (hok : RTOk env m' c g) (hp : Plain env m' c g)
+    (hnf : read env n' c (bs ++ rest) (Codec.zero env c) ≠ .fuel) :
+    read env n' c (bs ++ rest) (Codec.zero env c) = .ok (g, rest) := by
+  have := value_roundtrip env c s hcf n n' m m' g bs bs' rest v hw ht he hok hnf
+  rwa [normCodec_plain env h m' c g hp] at this
+
+/-- **C01 against the documented normalisations**: for a Go type `T` of the fragment of
+`normSpec_agrees`, the codec `c` of `T` and a well-typed value `g`, the value `r` read back from what
+was written for `g` equals `g` up to the documented normalisations and the recorded deviations
+D27 / D30 / D32: `normSpec T r = normSpecD 7 T g`. -/
+theorem value_roundtrip_spec (h : EnvLaws env) (T : GoType) (N M k : Nat) (c : Codec) (s : ASchema)
+    (hcf : CodecFor c s) (n n' m m' : Nat) (g : GoVal) (bs bs' rest : Bytes) (v : Value)
+    (hc : fieldCodec N T false = some c) (hty : Typed M T g) (hN : N ≤ m') (hk : N ≤ k)
+    (hw : write env n c g = some bs) (ht : toAvro env (omits env) m c g = some v)
+    (he : encode (canonPlan v) s v = some bs') (hok : RTOk env m' c g)
+    (hnf : read env n' c (bs ++ rest) (Codec.zero env c) ≠ .fuel) :
+    ∃ r, read env n' c (bs ++ rest) (Codec.zero env c) = .ok (r, rest) ∧
+      normSpec k T false r = normSpecD 7 k T false g :=
+  ⟨_, value_roundtrip env c s hcf n n' m m' g bs bs' rest v hw ht he hok hnf,
+    normSpec_agrees env h N M m' k T false c g hc hty hN hk⟩
+
+/-! non-vacuity of the three: the example value is `RTOk`; with `Q` pointing to an empty slice it is
+also `Plain`; the example codec is the codec of `struct{M map[string]int64; P *string; Q *[]int32}` -/
+
+def exType : GoType :=
+  .struct "Ex" "main" [.mk "M" true "" "" (.map .string (.int 64)), .mk "P" true "" "" (.ptr .string),
+    .mk "Q" true "" "" (.ptr (.slice (.int 32)))]
+def exValPlain : GoVal := .struct [.map false [[97]] [.int 7], .ptr (some (.str [104, 105])), .ptr (some (.slice []))]
+
+example : builtCodec exType = .ok exCodec := by rfl
+example : fieldCodec 8 exType false = some exCodec := by rfl
+
+example : normCodec toyEnv 5 exCodec (normCodec toyEnv 5 exCodec exVal) = normCodec toyEnv 5 exCodec exVal :=
+  norm_idempotent toyEnv toyEnv_laws 5 exCodec exVal
+    (by simp [RTOk, exCodec, exVal, FieldsOk, Codec.zero, inRange, Codec.ptrDepth])
+
+example : Plain toyEnv 5 exCodec exValPlain := by
+  simp [Plain, PlainFields, exCodec, exValPlain, Codec.stripPtr, omits]
+  intro j h0 h1 h2
+  match j with
+  | 0 => exact absurd rfl h0
+  | 1 => exact absurd rfl h1
+  | 2 => exact absurd rfl h2
+  | j + 3 => rfl
+
+example : Typed 5 exType exVal := by
+  simp [Typed, TypedFields, exType, exVal, GoField.type, isU8]
+
+example : ∃ r, read toyEnv 10 exCodec (exBytes ++ [255]) (Codec.zero toyEnv exCodec) = .ok (r, [255]) ∧
+    normSpec 8 exType false r = normSpecD 7 8 exType false exVal := by
+  have hcf : CodecFor exCodec exSchema :=
+    .record (.cons (.map .intL) (.cons (.unionOne1 (.pointer .string)) (.cons (.pointer (.array .intI)) .nil))) rfl
+  exact value_roundtrip_spec toyEnv toyEnv_laws exType 8 5 8 exCodec exSchema hcf 10 10 10 8 exVal exBytes exBytes
+    [255] exDatum (by rfl) (by simp [Typed, TypedFields, exType, exVal, GoField.type, isU8]) (by omega) (by omega)
+    (by decide +kernel) (by rfl) (by decide +kernel)
+    (by simp [RTOk, exCodec, exVal, FieldsOk, Codec.zero, inRange, Codec.ptrDepth])
+    (ne_fuel_of (by decide +kernel))
 
 end Avro.C01
